@@ -481,6 +481,28 @@ theorem C08_I3_call_order :
     callsBefore Lifecycle.handleSpendMultisigCalls "MarkBatchComplete" "resumeAccount(false,false,0)" = true := by
   decide
 
+/-- **staged copy follows the whole diff**: the optional attributes of a re-created account output – the
+extended expiry and the upgraded version – are decided independently of each other (regenerated:
+`storerOptionalExclusive = false`), so the staged record of a diff that carries both has the new expiry *and* the
+new version, exactly what the batch verifier (C02/C03) derived the output script of the batch transaction from. -/
+theorem C08_staged_copy_follows_diff (s : AState) (a : Acct) (g : StageArgs)
+    (ha : s.acct = some a) (hend : g.ending = 0) :
+    ∃ b, (stage s g).1.staged = some b ∧ (stage s g).2 = .ok ∧
+      b.expiry = (if g.supportsExt && g.newExpiry != 0 then g.newExpiry else a.expiry) ∧
+      b.version = (if g.supportsUpgrade && g.newVersion > a.version then g.newVersion else a.version) ∧
+      b.outpoint = { txid := g.txid, idx := g.idx } ∧ b.bk = a.bk + 1 ∧ b.state = .pendingBatch := by
+  have hx : Lifecycle.storerOptionalExclusive = false := by decide
+  have hl : Lifecycle.storerEnding.lookup 0 = some (8, true, true) := by decide
+  have h8 : State.ofNat? 8 = some .pendingBatch := by decide
+  simp [stage, ha, hend, hl, hx, h8]
+
+/-- non-vacuity: a version-0 account whose batch diff extends the expiry and upgrades to version 1 -/
+example :
+    let s := run (AState.init 1) [.init 100000 1200 0 1000 (some (7, 0)), .conf 0 1003]
+    let g : StageArgs := { ending := 0, txid := 9, idx := 0, endBal := 50000, newExpiry := 5000, newVersion := 1,
+                           supportsExt := true, supportsUpgrade := true, height := 1004 }
+    ((stage s g).1.staged.map fun b => (b.expiry, b.version)) = some (5000, 1) := by decide
+
 /-- a closure appends exactly: the write of the pending-closed record carrying the closing transaction,
 then (if signed) its publication -/
 theorem C08_I3_close_write_before_publish (s : AState) (a : Acct) (h txid : Nat) (sg : Bool)
